@@ -57,6 +57,18 @@ def run_c05(v):
         tr += r["states"]
     r = _mc("nolock", "writers", lock="FALSE")
     lib.expect_mc_violation(r, "MC_Conc without the writer mutex", {"MutualExclusion", "Serializable"})
+    # liveness under weak fairness per thread: every program runs to completion
+    live_cfg = lib.write_cfg("MC_Conc_live_run.cfg", """SPECIFICATION FairSpec
+CONSTANTS
+  Scenario = "writers"
+  UseLockC = TRUE
+  HoldReadLockC = TRUE
+  CleanupFirstC = FALSE
+PROPERTY EventuallyFinished
+CHECK_DEADLOCK FALSE
+""")
+    lr = lib.tlc_mc("MC_Conc.tla", live_cfg, timeout=1800, coverage=False)
+    lib.require_mc_ok(lr, "MC_Conc liveness (EventuallyFinished)")
     t = _traces(v, {"C05"}, 40 if quick else 600, 10 if quick else 100, None)
     v.coverage.update({
         "states": st, "transitions": tr, "traces_validated_against_impl": t["scenarios"], "trace_events": t["events"],
